@@ -93,7 +93,17 @@ static inline std::uint64_t getticks() {
   #error "Unsupported architecture"
 #endif
 
+#ifdef XENIUM_VERIF
+// verification hook: lets a test harness replace the tick based random source by a recorded, replayable one
+inline std::uint64_t (*verif_random_hook)() = nullptr;
+#endif
+
 inline std::uint64_t random() {
+#ifdef XENIUM_VERIF
+  if (verif_random_hook != nullptr) {
+    return verif_random_hook();
+  }
+#endif
   return getticks() >> 4;
 }
 } // namespace xenium::utils
